@@ -194,6 +194,10 @@ func driveMisc(t *Tracer, r Rng, n int) {
 			evObjHistory(t, r)
 			continue
 		}
+		if i%8 == 5 {
+			evRegHistory(t, r)
+			continue
+		}
 		switch r.Intn(5) {
 		case 0:
 			evCheckZoom(t, r.Pick(-1, 0, 1, 17, 34, 35, 36, 100, -(1<<40), 1<<40, r.In(-5, 40)))
@@ -215,3 +219,102 @@ func driveMisc(t *Tracer, r Rng, n int) {
 }
 
 func init() { families["misc"] = driveMisc }
+
+// evRegHistory: the plain register objects (QuadkeyAndVerticalID and the two
+// conversion-parameter objects) driven through random setter sequences; after
+// every step all getters are read.  Slots 1..6 QuadkeyAndVerticalID (quadkey
+// zoom, quadkey, vZoom, vIndex, maxHeight, minHeight), 7..11 the altitude-key
+// parameters (quadkey zoom, inner list, altitudekey zoom, base exponent, base
+// offset), 12..16 the vertical-ID parameters (quadkey zoom, inner list,
+// vertical zoom, maxHeight, minHeight).
+func evRegHistory(t *Tracer, r Rng) {
+	iv := r.smallInts(16, 1, 40)
+	pairs := func(k int64) ([][2]int64, []any) {
+		n := int(k % 3)
+		p := make([][2]int64, n)
+		a := make([]any, n)
+		for i := range p {
+			p[i] = [2]int64{k + int64(i), k * 2}
+			a[i] = []int64{k + int64(i), k * 2}
+		}
+		return p, a
+	}
+	qv := object.NewQuadkeyAndVerticalID(iv[0], iv[1], iv[2], iv[3], float64(iv[4]), float64(iv[5]))
+	l1, a1 := pairs(iv[7])
+	fa := object.NewFromExtendedSpatialIDToQuadkeyAndAltitudekey(iv[6], l1, iv[8], iv[9], iv[10])
+	l2, a2 := pairs(iv[12])
+	fv := object.NewFromExtendedSpatialIDToQuadkeyAndVerticalID(iv[11], l2, iv[13], float64(iv[14]), float64(iv[15]))
+	init := []any{iv[0], iv[1], iv[2], iv[3], iv[4], iv[5], iv[6], a1, iv[8], iv[9], iv[10], iv[11], a2, iv[13], iv[14], iv[15]}
+	read := func() []any {
+		il1 := make([]any, 0)
+		for _, p := range fa.InnerIDList() {
+			il1 = append(il1, []int64{p[0], p[1]})
+		}
+		il2 := make([]any, 0)
+		for _, p := range fv.InnerIDList() {
+			il2 = append(il2, []int64{p[0], p[1]})
+		}
+		return []any{qv.QuadkeyZoom(), qv.Quadkey(), qv.VZoom(), qv.VIndex(), int64(qv.MaxHeight()), int64(qv.MinHeight()),
+			fa.QuadkeyZoom(), il1, fa.AltitudekeyZoom(), fa.ZBaseExponent(), fa.ZBaseOffset(),
+			fv.QuadkeyZoom(), il2, fv.VerticalZoom(), int64(fv.MaxHeight()), int64(fv.MinHeight())}
+	}
+	n := 3 + r.Intn(10)
+	ops := make([]any, 0, n+1)
+	obs := make([]any, 0, n+1)
+	// step 0 re-writes slot 1 with its own value: the first observation is the constructors' state
+	qv.SetQuadkeyZoom(iv[0])
+	ops = append(ops, []any{1, iv[0]})
+	obs = append(obs, read())
+	for i := 0; i < n; i++ {
+		k := 1 + r.Intn(16)
+		v := r.In(-40, 40)
+		if r.Chance(0.25) {
+			v = 0
+		}
+		var val any = v
+		switch k {
+		case 1:
+			qv.SetQuadkeyZoom(v)
+		case 2:
+			qv.SetQuadkey(v)
+		case 3:
+			qv.SetVZoom(v)
+		case 4:
+			qv.SetVIndex(v)
+		case 5:
+			qv.SetMaxHeight(float64(v))
+		case 6:
+			qv.SetMinHeight(float64(v))
+		case 7:
+			fa.SetQuadkeyZoom(v)
+		case 8:
+			l, a := pairs(abs64(v))
+			fa.SetInnerIDList(l)
+			val = a
+		case 9:
+			fa.SetAltitudekeyZoom(v)
+		case 10:
+			fa.SetZBaseExponent(v)
+		case 11:
+			fa.SetZBaseOffset(v)
+		case 12:
+			fv.SetQuadkeyZoom(v)
+		case 13:
+			l, a := pairs(abs64(v))
+			fv.SetInnerIDList(l)
+			val = a
+		case 14:
+			fv.SetVerticalZoom(v)
+		case 15:
+			fv.SetMaxHeight(float64(v))
+		default:
+			fv.SetMinHeight(float64(v))
+		}
+		ops = append(ops, []any{k, val})
+		obs = append(obs, read())
+	}
+	e := absW.ev("RegHistory", map[string]any{"init": init, "ops": ops})
+	e.O = "ok"
+	e.R = obs
+	t.Emit(e, true)
+}
